@@ -30,8 +30,18 @@ func drawRules(t *rapid.T, c *hx.Case, resources []string, big bool) []mrule {
 	var ms []mrule
 	var rules []*isolation.Rule
 	for _, res := range resources {
-		nr := rapid.IntRange(0, 2).Draw(t, "nrules")
+		nr := rapid.IntRange(0, 3).Draw(t, "nrules")
 		for i := 0; i < nr; i++ {
+			if k := rapid.IntRange(0, 7).Draw(t, "invalidRule"); k < 2 { // an invalid rule somewhere in the list: ignored, the others stay in force
+				bad := &isolation.Rule{ID: fmt.Sprintf("%s-invalid%d", res, i), Resource: res, MetricType: isolation.Concurrency, Threshold: 0}
+				if k == 1 {
+					bad.MetricType, bad.Threshold = isolation.MetricType(1), 1
+				}
+				rules = append(rules, bad)
+				c.Op("invalid rule %s", bad.ID)
+				c.Class("invalid-rule-in-list")
+				continue
+			}
 			n := thresholds[rapid.IntRange(0, len(thresholds)-1).Draw(t, "N")]
 			if !big && n > 5 {
 				n = 3
